@@ -91,6 +91,7 @@ type Ctx struct {
 	Assumptions   []string
 	Extra         map[string]interface{}
 	violations    []string
+	sigCount      map[string]int
 	nviol         int
 	MaxViolations int
 }
@@ -112,7 +113,7 @@ func NewCtx(id, tier string) *Ctx {
 	}
 	c := &Ctx{ID: id, Tier: tier, Seed: seed, Verif: verif, Repo: repo, start: time.Now(),
 		distinct: map[[8]byte]struct{}{}, kfSeen: map[string]int{}, Extra: map[string]interface{}{},
-		MaxViolations: 5}
+		MaxViolations: 8}
 	c.loadKnown()
 	return c
 }
@@ -203,7 +204,11 @@ func (c *Ctx) Violation(sig, what string, replay interface{}) bool {
 		}
 	}
 	c.nviol++
-	if len(c.violations) >= c.MaxViolations {
+	if c.sigCount == nil {
+		c.sigCount = map[string]int{}
+	}
+	c.sigCount[sig]++
+	if c.sigCount[sig] > 2 || len(c.violations) >= c.MaxViolations {
 		return false
 	}
 	dir := filepath.Join(c.Verif, "out", "replay", c.ID)
@@ -286,6 +291,9 @@ func (c *Ctx) Finish(runErr error) int {
 			fmt.Printf("INCONCLUSIVE property=%s: cannot write evidence: %v\n", c.ID, err)
 			return 2
 		}
+	}
+	for sig, n := range c.sigCount {
+		fmt.Printf("  violations with signature %s: %d\n", sig, n)
 	}
 	fmt.Printf("SUMMARY property=%s tier=%s seed=%d evaluations=%d distinct_nontrivial=%d tlc_states=%d tlc_generated=%d replayed=%d gate_rejects=%d/%d known_hits=%d violations=%d wall=%.1fs\n",
 		c.ID, c.Tier, c.Seed, c.Evaluations, len(c.distinct), states, trans, c.TracesVsImpl, c.GateRejects, c.GateChecked, len(c.kfSeen), c.nviol, wall)
